@@ -220,7 +220,8 @@ def case_strategy():
             threads.append([["runall", "ex"]])
         prog = {"setup": setup, "threads": threads, "settle": 1, "final": [["open", "g"], ["sleep", 1]]}
         return {"prog": with_probes(prog), "inner": inner, "tape": draw(gen.tapes(8)),
-                "clock": draw(st.sampled_from(["exact", "exact", "preempt"])), "max_vtime": 200}
+                "clock": draw(st.sampled_from(["exact", "exact", "preempt"])), "max_vtime": 200,
+                "hsalt": draw(st.sampled_from([0, 0, 1, 2, 3]))}  # order in which the sweep visits its set of futures
 
     return cases()
 
